@@ -176,6 +176,29 @@ Proof.
 Qed.
 Print Assumptions C08_detects_corruption_of_diff_all_instance.
 
+(* ... and in default mode with recorded opcodes ([1,2,3,4] -> [0,1,2,3,5] with
+   the opcodes difflib returns; base [1,2,3,7]) *)
+Theorem C08_detects_corruption_of_diff_all_instance_default_mode :
+  zip ex4_cfg = false /\ ops_disjoint ex4_ops /\ snd ex4_r = [[]] /\
+  wf ex4_t1 = true /\ wf ex4_t2 = true /\ keys_nonneg ex4_t2 = true /\
+  (exists e, In e (fst ex4_r) /\ ekind e = KValue /\ differs_at ex4_t1 ex4_base (ep1 e)) /\
+  0 < snd (apply ex_conv ex_ro ex_ao ex4_d ex4_base).
+Proof.
+  assert (E : In (mkEntry KValue [PIdx 3] [PIdx 4] (Some (I 4)) (Some (I 5)) None) (fst ex4_r))
+    by (vm_compute; right; left; reflexivity).
+  assert (D : differs_at ex4_t1 ex4_base [PIdx 3])
+    by (unfold differs_at; vm_compute; eexists; split; reflexivity).
+  split; [reflexivity|]. split; [intros p xs ys; reflexivity|]. split; [reflexivity|].
+  split; [reflexivity|]. split; [reflexivity|]. split; [reflexivity|]. split.
+  - eexists. split; [exact E|]. split; [reflexivity|exact D].
+  - assert (M : zip ex4_cfg = true \/ ops_disjoint ex4_ops) by (right; intros p xs ys; reflexivity).
+    assert (T : thr_num ex4_cfg <= thr_den ex4_cfg) by (cbn; repeat constructor).
+    exact (C08_detects_corruption_of_diff_all hatom_simple (fun _ _ => []) ex4_ops no_paths no_paths ex4_cfg
+             ex_conv ex_ro ex_ao false ex4_ops ex4_t1 ex4_t2 M T eq_refl eq_refl eq_refl
+             _ ex4_base E (or_introl eq_refl) D).
+Qed.
+Print Assumptions C08_detects_corruption_of_diff_all_instance_default_mode.
+
 (* the typed reading is false: the comparison is Python !=, a base holding 2.0
    where 2 was recorded is accepted without any error *)
 Theorem C08_detects_typed_corruption_refuted :
